@@ -38,9 +38,14 @@ const (
 	ProfRSA  = "RSA"  // io.ReadSeeker + io.ReaderAt
 	ProfRSAB = "RSAB" // + io.ByteReader
 	ProfA    = "A"    // io.ReaderAt only
+	// ProfPipe is an io.Reader that has a Seek method which always fails, like an *os.File that is a
+	// pipe, a socket or a terminal (ESPIPE): a non-seekable source that looks like a Seeker.
+	ProfPipe = "pipe"
 )
 
-var AllProfiles = []string{ProfR, ProfRB, ProfRS, ProfRSB, ProfRSA, ProfRSAB, ProfA}
+var AllProfiles = []string{ProfR, ProfRB, ProfRS, ProfRSB, ProfRSA, ProfRSAB, ProfA, ProfPipe}
+
+var errIllegalSeek = errors.New("sim: seek: illegal seek")
 
 // SrcCore is the state shared by every profile wrapper.
 type SrcCore struct {
@@ -171,6 +176,13 @@ type SrcRSB struct{ C *SrcCore }
 type SrcRSA struct{ C *SrcCore }
 type SrcRSAB struct{ C *SrcCore }
 type SrcA struct{ C *SrcCore }
+type SrcPipe struct{ C *SrcCore }
+
+func (s SrcPipe) Read(p []byte) (int, error) { return s.C.read(p) }
+func (s SrcPipe) Seek(o int64, w int) (int64, error) {
+	s.C.tick()
+	return 0, errIllegalSeek
+}
 
 func (s SrcR) Read(p []byte) (int, error) { return s.C.read(p) }
 
@@ -213,6 +225,8 @@ func NewSource(data []byte, profile string, del Delivery) (any, *SrcCore) {
 		return SrcRSAB{c}, c
 	case ProfA:
 		return SrcA{c}, c
+	case ProfPipe:
+		return SrcPipe{c}, c
 	}
 	panic("sim: unknown profile " + profile)
 }
